@@ -96,6 +96,7 @@ class Observer(object):
         self.active = set()
         self.skip_attrs = set(skip_attrs)
         self.roster = list(roster)
+        self.taxon_by = taxon_by
         for i, t in enumerate(self.roster):
             self.tag(t, ["taxon", i if taxon_by == "index" else ("label", t._label)])
 
@@ -262,7 +263,11 @@ class Observer(object):
                 ctypes.append(ct)
         for ct in list(getattr(m, "character_types", []) or []):
             reg_ct(ct)
-        ordered = [t for t in self.roster if t in tsm] + [t for t in tsm if id(t) not in set(id(r) for r in self.roster)]
+        in_roster = set(id(r) for r in self.roster)
+        ordered = [t for t in self.roster if t in tsm] + [t for t in tsm if id(t) not in in_roster]
+        if self.taxon_by != "index":
+            # rows compared across namespaces: an order that does not depend on either namespace
+            ordered.sort(key=lambda t: str(t._label))
         for t in ordered:
             self.tag(tsm[t], ["seq", self.val(t)])
             for ct in tsm[t]._character_types:
